@@ -204,6 +204,31 @@ fn trigger_probes(rep: &mut Report) {
     check(&mut db, "DELETE FROM T WHERE C0 >= 1", "C11/delete-cascade-then-restrict", rep);
 }
 
+/// several unique indexes: an erroring statement leaves the snapshot unchanged; scenario statements
+/// that must be rejected are rejected
+fn run_ucase(c: &UCase, rep: &mut Report) {
+    let mut db = uidx_db(c);
+    let mut failed = 0;
+    for (prelude, stmt, must_reject) in &c.stmts {
+        if !prelude.iter().all(|q| db.exec(q).is_ok()) {
+            continue;
+        }
+        let before = snapshot(&mut db);
+        let out = db.exec(stmt);
+        let after = snapshot(&mut db);
+        rep.count(&format!("uidx{}_{}", c.idx_cols.len(), if stmt.contains("SELECT * FROM S") { "bulk" } else if stmt.starts_with("INSERT") { if c.trigger { "insert_trigger" } else { "insert_values" } } else if stmt.starts_with("UPDATE") { "update" } else { "delete" }));
+        if out.is_err() {
+            failed += 1;
+        }
+        if out.is_panic() || (out.is_err() && before != after) || (*must_reject && out.is_ok()) {
+            rep.fail(FailKind::Oracle, None, "table with several unique indexes: database changed by a failing statement (or a violating statement accepted)",
+                &format!("{}\n--- before ---\n{}--- after => {} ---\n{}", db.log.join(";\n"), before, out.brief(), after));
+            break;
+        }
+    }
+    rep.case(&c.name, failed > 0);
+}
+
 fn main() {
     let args = Args::parse("C11");
     engine::silence_panics();
@@ -211,6 +236,14 @@ fn main() {
     let mut model = args.model();
     let mut rng = Rng::new(args.seed);
     trigger_probes(&mut rep);
+    for c in uidx_scenarios() {
+        run_ucase(&c, &mut rep);
+        rep.count("multi_unique_index_scenarios");
+    }
+    for k in 0..args.n(400, 8000) {
+        let mut r = rng.fork();
+        run_ucase(&gen_uidx(&mut r, k), &mut rep);
+    }
     let rounds = args.n(40, 800);
     for round in 0..rounds {
         let mut r = rng.fork();
